@@ -298,6 +298,21 @@ func genCall(thorough bool) Gen {
 			def := func() []Stat { return []Stat{LocalFunc("callee", Func(params(2), true, c02Body(2, true, body)...))} }
 			emitAll("F-call", fmt.Sprintf("pcall[b%d]", body), def, func(a []Expr) Expr { return CallN("pcall", append([]Expr{Name("callee")}, a...)...) }, argvs, ctxs)
 		}
+		// non-vararg Lua callees with 1-3 parameters reached through pcall, a host call-back and a
+		// __call object (the callee is entered through the Go-side frame set-up, not through OP_CALL)
+		for np := 1; np <= 3; np++ {
+			for _, body := range []int{0, 3} {
+				np, body := np, body
+				def := func() []Stat { return []Stat{LocalFunc("callee", Func(params(np), false, c02Body(np, false, body)...))} }
+				emitAll("F-call", fmt.Sprintf("pcall-fixed[p%d,b%d]", np, body), def, func(a []Expr) Expr { return CallN("pcall", append([]Expr{Name("callee")}, a...)...) }, argvs, ctxs[:8])
+				emitAll("F-call", fmt.Sprintf("hcall-fixed[p%d,b%d]", np, body), def, func(a []Expr) Expr { return CallN("hcall", append([]Expr{Name("callee")}, a...)...) }, argvs, ctxs[:8])
+				defObj := func() []Stat {
+					h := Func(append([]string{"self"}, params(np)...), false, c02Body(np, false, body)...)
+					return []Stat{Local1("obj", CallN("setmetatable", TableE(), TableE(NamedField("__call", h))))}
+				}
+				emitAll("F-call", fmt.Sprintf("__call-fixed[p%d,b%d]", np, body), defObj, func(a []Expr) Expr { return CallN("pcall", append([]Expr{Name("obj")}, a...)...) }, argvs, ctxs[:6])
+			}
+		}
 		// for-in explist: the call supplies iterator, state and control
 		for _, nret := range []int{1, 2, 3, 4} {
 			nret := nret
